@@ -74,6 +74,7 @@ def generate(rng, tier):
         for L in spec['segments'][-1]['listed']:
             n = w.chans[L['path']].count
             reqs.append({'op': 'read_data', 'ch': L['path'], 'offset': max(0, n - 2), 'length': 2, 'np': 'int32'})
+            reqs.append({'op': 'read_data', 'ch': L['path'], 'offset': 0, 'length': 1, 'np': 'int32'})
             reqs.append({'op': 'slice', 'ch': L['path'], 'start': -2, 'stop': None, 'step': None, 'np': 'int32'})
     threads = None
     if reqs and rng.random() < 0.1:
@@ -111,6 +112,37 @@ def gap_probe(res, w, op, n):
                     s not in segs for s in range(start_seg + 1, k)):
                 res.probe('window-ends-in-multichunk-after-gap')
             break
+
+
+def tail_file_windows(spec, raw_ts, st, res):
+    out = []
+    tail = {'version': spec['version'], 'names': spec['names'], 'segments': [spec['segments'][-1]]}
+    try:
+        w2 = build(tail)
+    except Exception:
+        return out
+    st.put('tail.tdms', w2.data)
+    res.probe('stated-huge-segment-alone')
+    tf = lib.TdmsFile.open(st.source('simstream', 'tail.tdms'), raw_timestamps=raw_ts)
+    try:
+        for path, ch in w2.chans.items():
+            if ch.type is None or not ch.count:
+                continue
+            full = _lazy.model_full(ch, raw_ts)
+            for npname in ('int32', 'int64'):
+                for op in ({'op': 'read_data', 'ch': path, 'offset': 0, 'length': 1, 'np': npname},
+                           {'op': 'read_data', 'ch': path, 'offset': ch.count - 1, 'length': 3, 'np': npname},
+                           {'op': 'slice', 'ch': path, 'start': -1, 'stop': None, 'step': None, 'np': npname},
+                           {'op': 'index', 'ch': path, 'i': ch.count - 1, 'np': npname}):
+                    v, _g, _exc = _lazy.check_op(tf, w2, op, full, 'C04', 'lazy', res=res)
+                    res.compared += 1
+                    if v is not None:
+                        v.sig['tail_file'] = True
+                        out.append(v)
+                        return out
+    finally:
+        tf.close()
+    return out
 
 
 def execute(case):
@@ -197,6 +229,10 @@ def execute(case):
                 res.ev(i, mode, exc or (digest(g) if g is not None else None))
             if len(res.violations) > 5:
                 break
+        if spec['segments'][-1].get('declared_huge') and case['cut'] is None and not res.violations:
+            # the same final segment as a file of its own: the segment that states 2**31 or more values per chunk is then the
+            # first one of its channels, which is where positions computed with 32 bit numpy integers meet the large count
+            res.violations += tail_file_windows(spec, raw_ts, st, res)
         if case.get('threads') and not res.violations:
             # the eagerly read file is documented as safe to read from concurrently: the same requests from 2-3 threads,
             # interleaved at line granularity inside nptdms by a seeded scheduler, must return what they return alone
